@@ -117,13 +117,19 @@ def run_selftest(pid, root, seed, jobs=None):
                 failures.append(f"{v.name}: behaviour-preserving twin changed the verdict (new: {sorted(new)}, "
                                 f"gone: {sorted(gone)})")
     # whole-package twins: re-emitted by ast.unparse, and with every function-local variable renamed
-    from .twins import transform_tree
-    for label, rename in (("unparse", False), ("rename-locals", True)):
+    from .twins import transform_tree, transform_tree_logging, transform_tree_control
+    for label, rename in (("unparse", False), ("rename-locals", True), ("logging+annotations", None),
+                          ("inverted-ifs+mirrored-comparisons", "control")):
         tmp = tempfile.mkdtemp(prefix="tsverif-twin-")
         try:
             shutil.copytree(os.path.join(root, "torchsde"), os.path.join(tmp, "torchsde"),
                             ignore=shutil.ignore_patterns("__pycache__"))
-            transform_tree(tmp, rename=rename)
+            if rename is None:
+                transform_tree_logging(tmp)
+            elif rename == "control":
+                transform_tree_control(tmp)
+            else:
+                transform_tree(tmp, rename=rename)
             try:
                 code, rep = run_property(pid, tmp, "quick", 0, write=False, quiet=True)
                 got = {(r, _strip_suffix(c)) for r, c in _violation_set(rep)}
